@@ -1,5 +1,6 @@
 """C02 Trees survive a write/read round trip through Newick, NEXUS and NeXML."""
 import ast
+import re
 
 from .common import *  # noqa
 from .iotables import *  # noqa
@@ -52,6 +53,29 @@ def protect_rule(index, rep, rid, modules, floor):
                           "%s escapes a label with (%s) while the other %d NEXUS/Newick writer sites use (%s): under a non-default writer option the same taxon label is spelled differently in different statements of one file (e.g. bare `A_b` in TAXLABELS, quoted `'A_b'` in MATRIX), so on re-reading the rows/leaves no longer match the declared taxa"
                           % (fi.qualname, ", ".join("%s=%s" % kv for kv in sig), len(opts[major]), ", ".join("%s=%s" % kv for kv in major)))
     return cfgd
+
+
+_LOSSY = re.compile(r"%[-+ #0]*\d*(?:\.\d+)?[feEgG]|\{[^{}]*:[^{}]*[feEgG%]\}|\{[^{}]*:\.\d+\}")
+
+
+def lossless_format_rule(index, rep, rid, modules):
+    """Numbers are written with a representation that reads back to the same value (str / %s / {}): no
+    fixed-precision conversion (%f, %.3g, {:.4f}) and no round() in the writers - the only precision control is
+    the user-supplied format specifier of the Newick writer."""
+    nfmt = 0
+    for m in modules:
+        mod = index.module(m)
+        for f in index.functions_in_module(m):
+            for n in ast.walk(f.node):
+                if isinstance(n, ast.Constant) and isinstance(n.value, str) and ("%" in n.value or "{" in n.value):
+                    nfmt += 1
+                    mt = _LOSSY.search(n.value)
+                    rep.check(mt is None, rid, f.qualname, "fixed-precision number format %r" % (mt.group(0) if mt else ""), fn_where(f, n), "%s: format %r keeps full precision" % (f.name, n.value[:30]),
+                              "%s formats a number with the fixed-precision conversion %r (in %r): values needing more digits (2.5e-08 -> 0.000000) are written truncated, so the edge length / cell value read back differs from the one written" % (f.qualname, mt.group(0) if mt else "", n.value[:40]))
+                elif isinstance(n, ast.Call) and isinstance(n.func, ast.Name) and n.func.id == "round":
+                    nfmt += 1
+                    rep.check(False, rid, f.qualname, "round() in a writer: %s" % norm(n)[:40], fn_where(f, n), "", "%s rounds a value before writing it (`%s`): the value read back differs from the one in memory" % (f.qualname, norm(n)[:60]))
+    return nfmt
 
 
 def run(index, rep, tier):
@@ -202,6 +226,39 @@ def run(index, rep, tier):
         bad = {k: v for k, v in wpol.items() if v != want[k]}
         rep.check(not bad, "R02.3", wt.qualname, "writer rooting polarity %s" % sorted(bad.items()), fn_where(wt, chain[0]), "rooted trees get [&R], unrooted [&U], undefined/suppressed nothing",
                   "NewickWriter._write_tree writes the rooting token wrongly for (undefined, suppressed, rooted) = %s (expected %s)" % (sorted(bad.items()), sorted((k, want[k]) for k in bad)))
+
+    # ---- R02.7
+    with rep.section("R02.7"):
+        rep.rule("R02.7", "single-node trees: the seed node's kind is decided from what was parsed - the tree-statement parser starts the recursive descent with is_internal_node=None, and a None is resolved to 'internal' only when children were built")
+        ts = index.function(NR + "._parse_tree_statement")
+        nd = index.function(NR + "._parse_tree_node_description")
+        tops = [c for c in calls_in(ts.node) if call_name(c) == "_parse_tree_node_description"]
+        if len(tops) != 1:
+            raise AnalysisError("R02.7: top-level call of _parse_tree_node_description not recognised")
+        v = get_kwarg(tops[0], "is_internal_node")
+        rep.check(v is None or is_none(v), "R02.7", ts.qualname, "seed parsed with is_internal_node=%s" % (norm(v) if v is not None else "<default>"), fn_where(ts, tops[0]), "the seed node is parsed with is_internal_node=None",
+                  "_parse_tree_statement starts the descent with is_internal_node=%s: for a tree that consists of a single node (`a:3;`) the label is then taken for an internal node label, the node gets no taxon and the namespace comes back empty" % (norm(v) if v is not None else None))
+        res = [i for i in nd.node.body if isinstance(i, ast.If) and names_in(i.test) == {"is_internal_node"} and "None" in norm(i.test)]
+        if len(res) != 1:
+            raise AnalysisError("R02.7: resolution of is_internal_node=None not recognised")
+        out = {}
+        for kids in (True, False):
+            d = Decision(facts={"current_node._child_nodes": kids}, values={"is_internal_node": None})
+            d.run(res)
+            if "is_internal_node" in d.env:
+                out[kids] = d.env["is_internal_node"]
+            elif "is_internal_node" in d.exprs:
+                e = d.exprs["is_internal_node"]
+                out[kids] = kids if norm(e) in ("bool(current_node._child_nodes)", "current_node._child_nodes") else "?"
+            else:
+                out[kids] = None
+        rep.check(out.get(True) is True and out.get(False) in (None, False), "R02.7", nd.qualname, "None resolved to %s" % out, fn_where(nd, res[0]), "None -> internal iff children were built",
+                  "_parse_tree_node_description resolves is_internal_node=None to %s (children built -> %s, no children -> %s): a single-node tree must be treated as a leaf" % (out, out.get(True), out.get(False)))
+
+    # ---- R02.6
+    with rep.section("R02.6"):
+        rep.rule("R02.6", "numbers are written losslessly: the tree writers use str/%s/{} for edge lengths and weights, never a fixed-precision conversion or round() (precision is only ever reduced by the user's own format specifier)")
+        rep.floor("R02.6", "format strings in the tree writers", 40, lossless_format_rule(index, rep, "R02.6", ["dendropy.dataio.newickwriter", "dendropy.dataio.nexuswriter", "dendropy.dataio.nexmlwriter"]))
 
     # ---- R02.4
     with rep.section("R02.4"):
